@@ -11,6 +11,7 @@ import Nq.Lemmas.SchedSqrt
 import Nq.Lemmas.SchedDaemon
 import Nq.Lemmas.SchedHist
 import Nq.Lemmas.SchedSleep
+import Nq.Lemmas.SchedPass
 
 namespace Nq.Props.C15
 open Nq Nq.Sched Nq.Spec.Sched Nq.Lemmas.Sched
@@ -855,5 +856,160 @@ example : let s : Nq.SelPrep.Snap := { exSnap with chans := [{ used := 1, conc :
     startableDues s = [] ∧ Nq.SelPrep.timeout s = 1501 := by decide
 example : SnapOf { clock := 1000000000, q1 := #[⟨1000000400, 9⟩] } exSnap ∧ midPass exSnap .rem = false ∧ midPass exSnap .loc = true :=
   ⟨⟨rfl, rfl, by decide, ⟨_, _, rfl, by decide, by decide⟩, by decide⟩, by decide, by decide⟩
+
+/-! ### Passes that are not atomic (`Nq.SchedPass`): open / one record / one report / job_close as separate steps
+
+The `C15_hist_*` theorems above are about `Nq.SchedHist.step`, where a pass is ONE step (opened, every recipient started
+and answered, job_close — at one clock value): they cover *uninterrupted* passes.  The real daemon spreads a pass over many
+iterations of its loop; the clock moves, the other channel works, reports of earlier jobs arrive, TERM arrives in
+between.  The theorems below are about `Nq.SchedPass.pstep`, which has those interleavings.  Two things change:
+
+* the retry time of a pass is computed from `recent` when the job is OPENED (`jo[].retry = nextretry(birth,c)` in
+  pass_dochan), not when a recipient fails and not when the message is re-inserted.  "Strictly in the future" holds
+  at the moment the job is opened; when the pass lasts longer than the back-off the re-inserted due time is already past
+  (complement `example` below) — the guarantee is "not before the back-off time computed at open".
+* a pass can be cut short by TERM: pass_dochan returns at once under flagexitasap, the daemon waits only for deliveries
+  in flight (del_canexit), the pass keeps its job reference so job_close never re-inserts, and pqfinish() walks only
+  pqchan[].  Before /repo be3a18d the channel file then kept its old mtime and the recipients deferred in that pass were
+  retried right after the restart (`C15_term_midpass_mutant`; found by the `W` scenarios of this check).  Since be3a18d
+  `pass_finish()` stamps the file with `jo[].retry` iff recipients were deferred (`numtodo != 0`): `persist = true`,
+  `Nq.SchedPass.codeNow`. -/
+
+open Nq.SchedPass Nq.Lemmas.SchedPass
+
+/-- **Well-formedness of the fine-grained state is an invariant** of every quiet step (clock tick, TERM, exit, restart,
+opening a pass, reading one record, one report — on either channel), for the exit as it is and as it was. -/
+theorem C15_pass_wf (persist : Bool) (s : PSt) (hw : WFp s) (x : PStep) (hq : x.quiet = true) : WFp (pstep persist s x) :=
+  wfp_pstep hw persist x hq
+
+/-- **No early retry with interrupted passes** (general form).  In a well-formed state a report for record `pos` of the open
+job `j` of message `i` on channel `c` leaves the record 'T' (deferral, or a mangled report).  Then for EVERY quiet
+continuation `mid` — clock ticks, TERM at any moment, the exit of the daemon as soon as nothing is in flight, restart,
+further opens / records / reports on either channel for any message, in any order and number — whenever `pass_dochan(c)`
+starts message `i` again the clock has reached `j.job.retry`, which is `nextretry` of the time the job was OPENED, was
+strictly in the future at that time and has the quadratic form.  For the exit as it was before be3a18d
+(`persist = false`) this needs `NoCut`: the daemon never exits while a job of `i` is open on `c`. -/
+theorem C15_pass_backoff_gen (persist : Bool) (s : PSt) (hw : WFp s) (c : Chan) (i pos : Nat) (letter : Byte) (j : OJob) (m : Msg)
+    (hup : s.up = true) (hj : s.job? c i = some j) (hin : j.inflight.contains pos = true) (hm : s.h.find i = some m)
+    (hstay : (report j.job.dying letter (str "report\n")).staysTodo = true)
+    (hage : j.opened - m.birth < 4294967296)
+    (mid : List PStep) (hq : allQuiet mid)
+    (hcut : persist = true ∨ NoCut persist i c (reportSt s c i pos letter) mid)
+    (pe : Elt) (hagain : startedP (prun persist (reportSt s c i pos letter) mid) c = some pe) (hid : pe.id = i) :
+    j.job.retry = nextretry j.opened m.birth c ∧ j.opened < j.job.retry ∧
+    (m.birth ≤ j.opened → IsRetry j.opened m.birth c j.job.retry) ∧
+    j.job.retry ≤ (prun persist (reportSt s c i pos letter) mid).h.clock := by
+  have hjm := find_job_mem (show (s.jobs c).find? (·.id == i) = some j from hj)
+  have hji : j.id = i := by simpa using hjm.2
+  obtain ⟨m', hm', _, hret⟩ := hw.jobFile c j hjm.1
+  rw [hji, hm] at hm'; cases hm'
+  obtain ⟨hfut, hform⟩ := C15_future j.opened m.birth c hage
+  refine ⟨hret, by rw [hret]; exact hfut, by rw [hret]; exact hform, ?_⟩
+  have ho := owed_init_report hw hup hj hin hm hstay
+  obtain ⟨hw2, ho2⟩ := owed_prun persist mid _ (wfp_reportSt hw c i pos letter) ho hq hcut
+  exact owed_started hw2 ho2 hagain hid
+
+/-- **No early retry with interrupted passes, for qmail-send.c as it is** (`codeNow`: the repaired exit): no side
+condition — the schedule of a message whose pass was cut short by TERM survives the clean restart. -/
+theorem C15_pass_backoff (s : PSt) (hw : WFp s) (c : Chan) (i pos : Nat) (letter : Byte) (j : OJob) (m : Msg)
+    (hup : s.up = true) (hj : s.job? c i = some j) (hin : j.inflight.contains pos = true) (hm : s.h.find i = some m)
+    (hstay : (report j.job.dying letter (str "report\n")).staysTodo = true)
+    (hage : j.opened - m.birth < 4294967296)
+    (mid : List PStep) (hq : allQuiet mid)
+    (pe : Elt) (hagain : startedP (prun codeNow (reportSt s c i pos letter) mid) c = some pe) (hid : pe.id = i) :
+    j.job.retry = nextretry j.opened m.birth c ∧ j.opened < j.job.retry ∧
+    (m.birth ≤ j.opened → IsRetry j.opened m.birth c j.job.retry) ∧
+    j.job.retry ≤ (prun codeNow (reportSt s c i pos letter) mid).h.clock :=
+  C15_pass_backoff_gen codeNow s hw c i pos letter j m hup hj hin hm hstay hage mid hq (Or.inl rfl) pe hagain hid
+
+/-- **A cut pass without a deferral stays due**: when the daemon exits while the pass on message `i` is still open and no
+recipient was deferred in it (`numtodo = 0`), the exit does not touch the mtime of its channel file — pqstart() of the next
+process schedules it where the file says, so the recipients that were not tried yet are not delayed by the back-off
+(in the real file system that mtime is the time of the last mark or of the last pqfinish, not later than now). -/
+theorem C15_cut_no_deferral_unchanged (s : PSt) (hw : WFp s) (c : Chan) (i : Nat) (j : OJob) (m : Msg)
+    (hup : s.up = true) (hex : s.exitasap = true) (hnf : nothingInFlight s = true)
+    (hj : s.job? c i = some j) (hd : j.deferred = 0) (hm : s.h.find i = some m) :
+    ∃ m', (pfinSt codeNow s).h.find i = some m' ∧ m'.mt c = m.mt c ∧ m'.recs c = m.recs c ∧ (pfinSt codeNow s).up = false := by
+  have hjm := find_job_mem (show (s.jobs c).find? (·.id == i) = some j from hj)
+  have hji : j.id = i := by simpa using hjm.2
+  have hnq : i ∉ ids (s.h.q c) := by rw [← hji]; exact hw.jobNotQ c j hjm.1
+  rcases pfinSt_cases codeNow s with h | ⟨_, _, _, h⟩
+  · exfalso
+    have : pfinSt codeNow s ≠ s := by
+      unfold pfinSt; simp [hup, hex, hnf]
+      intro hc; have := congrArg PSt.up hc; simp [hup] at this
+    exact this h
+  · rw [h]
+    obtain ⟨_, _, _, _, _, _, hfind⟩ := finSt_spec hw.wf
+    obtain ⟨g, hg, hgp⟩ := hfind i
+    obtain ⟨_, _, g3, g4⟩ := hgp m
+    have hnone : ∀ x ∈ s.jobs c, ¬ ((x.scanning && decide (0 < x.deferred)) = true ∧ i = x.id) := by
+      intro x hx ⟨hq, hxi⟩
+      have hxj : x = j := eq_of_nodup_map (·.id) _ (hw.jobNodup c) x hx j hjm.1 (by rw [← hxi, hji])
+      subst hxj
+      simp [hd] at hq
+    have hcutid : ∀ (mm : Msg), cutMt c (s.jobs c) i mm = mm := by
+      intro mm
+      unfold cutMt
+      generalize s.jobs c = l at hnone
+      induction l generalizing mm with
+      | nil => rfl
+      | cons x r ih =>
+        rw [List.foldl_cons]
+        simp only [if_neg (hnone x List.mem_cons_self)]
+        exact ih mm (fun y hy => hnone y (List.mem_cons_of_mem _ hy))
+    refine ⟨cutMt .rem s.j1 i (cutMt .loc s.j0 i (g m)), ?_, ?_, ?_, rfl⟩
+    · show (if codeNow then s.j1.foldl (cutWrite .rem) (s.j0.foldl (cutWrite .loc) (finSt s.h)) else finSt s.h).find i = _
+      simp only [codeNow, if_true]
+      rw [foldl_cutWrite_find, foldl_cutWrite_find, hg, hm]; rfl
+    · obtain ⟨_, a2, _, _⟩ := cutMt_spec .rem i s.j1 (cutMt .loc s.j0 i (g m))
+      obtain ⟨_, b2, _, _⟩ := cutMt_spec .loc i s.j0 (g m)
+      cases c with
+      | loc =>
+        rw [a2 .loc (by decide)]
+        rw [show s.j0 = s.jobs .loc from rfl, hcutid]; exact (g4 .loc).2 hnq
+      | rem =>
+        rw [show s.j1 = s.jobs .rem from rfl, hcutid, b2 .rem (by decide)]; exact (g4 .rem).2 hnq
+    · obtain ⟨a1, _, _, _⟩ := cutMt_spec .rem i s.j1 (cutMt .loc s.j0 i (g m))
+      obtain ⟨b1, _, _, _⟩ := cutMt_spec .loc i s.j0 (g m)
+      rw [a1, b1, g3]
+
+/-- the queue of the minimal scenario of the finding: one local message (born at T0−50, due), one recipient; daemon started at T0 -/
+def exP0 : PSt := prun true { h := { lifetime := 604800 } } [.mk 213 .loc 999999950 999999995 1, .tick 1000000000, .load]
+/-- pass opened at T0 (retry T0+239), the delivery started; TERM at T0+10; the report Z arrives at T0+50; the daemon exits; restart -/
+def exCut : List PStep := [.open .loc, .next .loc, .tick 10, .term, .tick 40, .report .loc 213 0 90, .fin, .load]
+
+/-- **The pre-fix behaviour, as a documented mutant** (`persist = false`, qmail-send.c before be3a18d): the same history on
+which the repaired exit keeps the message scheduled at its back-off time T0+239 lets the old exit start the deferred
+recipient again at T0+50 — in the second of the deferral, 189 s early.  (Observed on the real code by the `W` scenario
+`cl=1/end=600/term=10/out=Z/dur=50/m=p1.0.50.-5.0`; reverting be3a18d in a scratch copy makes the check report it.) -/
+theorem C15_term_midpass_mutant :
+    allQuiet exCut ∧
+    (startedP (prun false exP0 exCut) .loc = some ⟨999999995, 213⟩ ∧ (prun false exP0 exCut).h.clock = 1000000050 ∧
+      ((prun false exP0 [.open .loc, .next .loc]).job? .loc 213).map (·.job.retry) = some 1000000239) ∧
+    (startedP (prun true exP0 exCut) .loc = none ∧ (prun true exP0 exCut).h.q0.toList = [⟨1000000239, 213⟩] ∧
+      startedP (prun true exP0 (exCut ++ [.tick 189])) .loc = some ⟨1000000239, 213⟩) := by
+  refine ⟨?_, by decide, by decide⟩
+  intro x hx
+  simp only [exCut, List.mem_cons, List.mem_nil_iff, or_false] at hx
+  rcases hx with h | h | h | h | h | h | h | h <;> subst h <;> rfl
+
+/-- no deferral in the cut pass (two recipients, the first one delivered): due at once after the restart, as before the fix -/
+example : startedP (prun codeNow (prun true { h := { lifetime := 604800 } } [.mk 213 .loc 999999950 999999995 2, .tick 1000000000, .load])
+    [.open .loc, .next .loc, .tick 10, .term, .tick 40, .report .loc 213 0 75, .fin, .load]) .loc = some ⟨999999995, 213⟩ := by decide
+
+/-- complement to "strictly in the future": the retry time is computed when the job is opened; a pass that lasts longer than
+the back-off (here the report arrives 300 s after the open, back-off 239 s) re-inserts the message with a due time that is
+already past, and it is started again at once -/
+example : let s := prun codeNow exP0 [.open .loc, .next .loc, .tick 300, .report .loc 213 0 90, .next .loc]
+    s.h.q0.toList = [⟨1000000239, 213⟩] ∧ s.h.clock = 1000000300 ∧ startedP s .loc = some ⟨1000000239, 213⟩ := by decide
+
+/-- the atomic pass of `Nq.SchedHist` is the uninterrupted special case: open, every record read and answered at once, EOF -/
+example : (prun codeNow exP0 (atomicPass .loc 213 [true] [90])).h.q0.toList =
+    (Nq.SchedHist.step exP0.h (.pass .loc [90])).1.q0.toList := by decide
+example : let s := prun true { h := { lifetime := 604800 } } [.mk 7 .rem 1000 2000 3, .tick 5000, .load]
+    (prun codeNow s (atomicPass .rem 7 [true, true, true] [75, 90, 68])).h.q1.toList = (Nq.SchedHist.step s.h (.pass .rem [75, 90, 68])).1.q1.toList ∧
+    ((prun codeNow s (atomicPass .rem 7 [true, true, true] [75, 90, 68])).h.find 7).map (·.recs1) =
+      ((Nq.SchedHist.step s.h (.pass .rem [75, 90, 68])).1.find 7).map (·.recs1) := by decide
 
 end Nq.Props.C15
